@@ -67,9 +67,11 @@ def gen_ops(tier, rng):
     # hand-written multiply / xor kernels behind galMulSlice / sliceXor
     for flags in ["-", "2", "3", "a", "5", "g", "x", "23a5gx", "3a"]:
         for xor in (0, 1):
-            for size in [0, 1, 15, 16, 17, 31, 32, 33, 63, 64, 65, 127, 128, 129, 1000, 4096 + 40]:
+            # every residue of the length modulo 16/32/64 around the kernels' block sizes, and large slices with each tail class
+            for size in sorted(set([0, 1, 15, 17, 31, 33, 63, 65, 127, 129, 1000, 4096 + 40] + list(range(16, 544, 16)) +
+                                   [4000, 4096, 65536, 65568, 65536 + 48, 65536 + 16, 100003])):
                 ops.append((f"mulslice {flags} {xor} {size} {rng.randrange(1, 1<<30)}", {"cat": "mulslice"}))
-        for size in [0, 1, 15, 16, 31, 32, 33, 63, 64, 65, 127, 128, 129, 1000, 70000]:
+        for size in sorted(set([0, 1, 15, 31, 33, 63, 65, 127, 129, 1000, 70000] + list(range(16, 544, 16)) + [4000, 65568, 65536 + 48, 100003])):
             ops.append((f"slicexor {flags} {size} {rng.randrange(1, 1<<30)}", {"cat": "slicexor"}))
     # Leopard kernels
     for gf in ["8", "16"]:
